@@ -13,7 +13,7 @@
    covered annotation that is the image of a metamodel type), EVERY closed-valid JSON value parses into a well-typed value that
    serialises back to the input up to null-valued members (LSP.Link: metamodel validity => Python-side validity; LSP.RoundTrip /
    LSP.HookFrag: Python-side validity => round trip; coverage pinned by [cover_not_shrunk]).  Outside the covered part (1 class: WorkspaceSymbolResponse, which reaches the defective symbol-list hook; formerly 22 classes
-   that reach a union whose hook is outside the proved fragment, message envelopes at the metamodel level) the round trip is
+   that reach a union whose hook is outside the proved fragment; message envelopes: [mm_covered_roundtrip_messages], 163 of 164 message classes) the round trip is
    validated on every run by the correspondence stream (model = real converter on every generated valid input) and the oracle
    on the real converter's results. *)
 From LSP Require Import Base MM Sem SemThy Disp Image ImageThy.
